@@ -83,8 +83,8 @@ func init() {
 			var model []database.Command
 			if it%3 == 2 {
 				os.MkdirAll(filepath.Dir(nb), 0o755)
-				os.WriteFile(nb, []byte("- command: old one\n  description: kept\n  keywords: [old]\n- command: old two | tee\n  description: also kept\n  pipeline: true\n"), 0o644)
-				model = []database.Command{{Command: "old one", Description: "kept", Keywords: []string{"old"}}, {Command: "old two | tee", Description: "also kept", Pipeline: true}}
+				os.WriteFile(nb, []byte("- command: old one\n  description: kept\n  keywords: [old]\n  tags: [handwritten, oncall]\n- command: old two | tee\n  description: also kept\n  pipeline: true\n"), 0o644)
+				model = []database.Command{{Command: "old one", Description: "kept", Keywords: []string{"old"}, Tags: []string{"handwritten", "oncall"}}, {Command: "old two | tee", Description: "also kept", Pipeline: true}}
 			}
 			for s, steps := 0, 1+rng.Intn(6); s < steps; s++ {
 				command := pick()
